@@ -23,6 +23,10 @@ typedef size_t   usz;
 #include "replay_inputs.h"
 #define INPUT(type, name)            type name = REPLAY_VAL_##name
 #define INPUT_ARRAY(type, name, n)   type name[n] = REPLAY_VAL_##name
+/* sequence inputs: one fresh arbitrary value per evaluation (environment stubs that are called an
+ * unbounded number of times); the driver records the values along the counterexample, in order */
+#define SEQ_DECL(type, name)         static const type replay_seq_##name[] = REPLAY_SEQ_##name; static unsigned replay_seq_i_##name
+#define SEQ_NEXT(type, name)         (replay_seq_i_##name < sizeof(replay_seq_##name) / sizeof(type) ? replay_seq_##name[replay_seq_i_##name++] : (type) 0)
 #ifdef __CPROVER__
 #define ASSUME(c)        __CPROVER_assume(c)
 #define CHECK(c, msg)    __CPROVER_assert((c), "PROP " msg)
@@ -41,6 +45,8 @@ i32 nondet_i32(void);
 usz nondet_usz(void);
 #define INPUT(type, name)            type name = nondet_##type()
 #define INPUT_ARRAY(type, name, n)   type name[n]   /* uninitialised local = nondet under CBMC */
+#define SEQ_DECL(type, name)         static type seq_##name
+#define SEQ_NEXT(type, name)         (seq_##name = nondet_##type())
 #define ASSUME(c)        __CPROVER_assume(c)
 #define CHECK(c, msg)    __CPROVER_assert((c), "PROP " msg)
 #define WITNESS(msg)     __CPROVER_assert(0, "WITNESS " msg)
